@@ -62,6 +62,11 @@ func runLiveOnce(seed int64) *liveOutcome {
 	}
 	mkSet(names[0])
 	mkSet(names[1])
+	chaos := r.Intn(2) == 0
+	if chaos {
+		srv.SetChaos(7 + r.Intn(10)) // every 7th..16th controller call fails while the user is active
+		out.Trace = append(out.Trace, "chaos: API calls fail at random while the user is active")
+	}
 	w.Start(4, stop)
 	var kubeletIdle atomic.Bool
 	var wg sync.WaitGroup
@@ -155,6 +160,7 @@ func runLiveOnce(seed int64) *liveOutcome {
 		}
 	}()
 	<-userDone
+	srv.SetChaos(0)
 	// state-defined quiescence; the wall clock is only a watchdog
 	q := w.Ctl.VerifQueue()
 	start := time.Now()
